@@ -731,7 +731,14 @@ fn case_stats(cx: &mut Cx, cs: u64, enum_pattern: Option<Vec<bool>>) {
             let s = UdpSocket::bind("127.0.0.1:0").unwrap();
             fd = s.as_raw_fd();
             label = "UdpMetricSink";
-            Arc::new(UdpMetricSink::from(udp_recv.local_addr().unwrap(), s).unwrap())
+            // (the address argument may resolve to several addresses: only the first is ever used, so every attempt the
+            // sink accounts for is exactly one sendto)
+            if r.chance(1, 2) {
+                let list: Vec<SocketAddr> = vec![udp_recv.local_addr().unwrap(), "127.0.0.1:9".parse().unwrap()];
+                Arc::new(UdpMetricSink::from(&list[..], s).unwrap())
+            } else {
+                Arc::new(UdpMetricSink::from(udp_recv.local_addr().unwrap(), s).unwrap())
+            }
         }
         1 => {
             let s = UnixDatagram::unbound().unwrap();
@@ -743,7 +750,12 @@ fn case_stats(cx: &mut Cx, cs: u64, enum_pattern: Option<Vec<bool>>) {
             let s = UdpSocket::bind("127.0.0.1:0").unwrap();
             fd = s.as_raw_fd();
             label = "BufferedUdpMetricSink";
-            Arc::new(BufferedUdpMetricSink::with_capacity(udp_recv.local_addr().unwrap(), s, cap).unwrap())
+            if r.chance(1, 2) {
+                let list: Vec<SocketAddr> = vec![udp_recv.local_addr().unwrap(), "127.0.0.1:9".parse().unwrap()];
+                Arc::new(BufferedUdpMetricSink::with_capacity(&list[..], s, cap).unwrap())
+            } else {
+                Arc::new(BufferedUdpMetricSink::with_capacity(udp_recv.local_addr().unwrap(), s, cap).unwrap())
+            }
         }
         _ => {
             let s = UnixDatagram::unbound().unwrap();
